@@ -161,6 +161,13 @@ func (s *fnScope) classify(e ast.Expr) asrc {
 		if id, ok := x.Fun.(*ast.Ident); ok && (id.Name == "len" || id.Name == "cap") {
 			return AIdx
 		}
+		// delegation to another validator held by the receiver (c.fn(value), d.shape.Validate(value)):
+		// its text is that validator's own site
+		if sel, ok := x.Fun.(*ast.SelectorExpr); ok && s.recv != "" {
+			if r := rootIdent(sel.X); r != nil && r.Name == s.recv && (sel.Sel.Name == "Validate" || sel.Sel.Name == "fn") {
+				return AValidator
+			}
+		}
 		if id, ok := x.Fun.(*ast.Ident); ok && id.Name == "make" {
 			return ALit
 		}
@@ -390,6 +397,31 @@ func collectReasonSites(repo string) ([]rsite, error) {
 							counter[key]++
 							sites = append(sites, sc.reasonSite(fmt.Sprintf("%s:%s#%d", fn, key, counter[key]), "oneOf", x.Rhs[i]))
 						}
+					}
+				case *ast.ReturnStmt:
+					if !isValidator {
+						return true
+					}
+					for _, r := range x.Results {
+						if id, ok := r.(*ast.Ident); ok && id.Name == "nil" {
+							continue
+						}
+						if call, ok := r.(*ast.CallExpr); ok {
+							if sel, ok := call.Fun.(*ast.SelectorExpr); ok {
+								if pk, ok := sel.X.(*ast.Ident); ok && pk.Name == "fmt" && sel.Sel.Name == "Errorf" {
+									continue // handled as its own site below
+								}
+							}
+						}
+						if u, ok := r.(*ast.UnaryExpr); ok {
+							if cl, ok := u.X.(*ast.CompositeLit); ok {
+								_ = cl
+								continue // &SchemaError{...}: handled as a composite-literal site
+							}
+						}
+						key := fd.Name.Name + ":return"
+						counter[key]++
+						sites = append(sites, rsite{loc: fmt.Sprintf("%s:%s#%d", fn, key, counter[key]), field: "format-validator", format: "%v", args: []asrc{sc.classify(r)}})
 					}
 				case *ast.CallExpr:
 					if !isValidator {
